@@ -51,7 +51,24 @@ def rule_wrapper_release(repo: Repo, rep: Report) -> None:
         cb = [s for s in sites(m) if isinstance(s.node, ast.Call) and isinstance(s.node.func, ast.Attribute)
               and dotted(s.node.func.value) == "self" and s.node.func.attr.startswith("_on_")]
         disp = [s for s in sites(m) if isinstance(s.node, ast.Call) and dotted(s.node.func) == "self.dispose"]
-        rep.require(cb, f"callback invocation in {m.ref}")
+        where = m
+        if not cb:
+            # the two terminal handlers may share a helper that receives the callback: `self._terminate(self._on_error, error)`
+            for s in sites(m):
+                n = s.node
+                if isinstance(n, ast.Call) and isinstance(n.func, ast.Attribute) and dotted(n.func.value) == "self":
+                    hlp = cls.child(n.func.attr)
+                    idx = next((i for i, a in enumerate(n.args) if isinstance(a, ast.Attribute) and dotted(a.value) == "self" and a.attr.startswith("_on_")), None)
+                    if hlp is not None and hlp.is_func and idx is not None and len(hlp.params) > idx + 1:
+                        pname = hlp.params[idx + 1]
+                        cb = [x for x in sites(hlp) if isinstance(x.node, ast.Call) and isinstance(x.node.func, ast.Name) and x.node.func.id == pname]
+                        disp = [x for x in sites(hlp) if isinstance(x.node, ast.Call) and dotted(x.node.func) == "self.dispose"]
+                        where = hlp
+        if not cb:
+            rep.ob("W1-terminal-disposes", m, f"{mname}: runs the subscriber's callback", False,
+                   f"AutoDetachObserver.{mname} does not invoke the subscriber's {mname} callback (directly or through a helper that receives it)")
+            continue
+        m = where
         for c in cb:
             ok = False
             for d in disp:
